@@ -1,7 +1,12 @@
-"""Translator (C16): the BODY of chython/reactor/base.py:BaseReactor._get_deleted, statement by statement -> coq/gen/ReactorBody.v
+"""Translator (C16): function bodies of chython/reactor/base.py, statement by statement -> coq/gen/ReactorBody.v
 
-    g_get_deleted : nat -> list Z -> graph -> list (Z * Z) -> pyres (list Z)
+    g_get_deleted : nat -> list Z -> graph -> list (Z * Z) -> pyres (list Z)            (the whole body of BaseReactor._get_deleted)
                     fuel   self._to_delete  structure._bonds  mapping
+    g_patcher_keep : satoms sbonds to_delete tetrahedrons natoms nbonds stereo_atoms stereo_bonds
+                     -> pyres (natoms * nbonds * stereo_atoms * stereo_bonds)
+                    (BaseReactor._patcher from `patched_atoms = set(new)` to the end of `for n, bs in sbonds.items()`: the two loops
+                     that copy the atoms the template does not name and the bonds that survive, with their stereo bookkeeping;
+                     the prologue of _patcher is checked to bind satoms/sbonds/natoms/nbonds/to_delete/stereo_* as assumed)
 
 A small imperative-to-functional translation (continuation style: what follows a compound statement is repeated in each of
 its branches; a loop becomes a fold over the tuple of the variables of the enclosing scope that its body assigns or mutates).
@@ -16,6 +21,9 @@ scoping would make it depend on an earlier loop iteration or on the branch taken
   expressions: names; `<param>.<attr>` listed in PARAMS; `d[e]` (KeyError when missing); `l.pop()` (IndexError when empty);
                `set()`, `{e}`, `[e]`, `True`, `False`; `{d[x] for x in s}`; `set(d.values()).difference(s)`
   tests      : `x`, `not x` (truth value of a set / stack / bool), `a in s`, `a not in s`, `and`, `or`
+  records    : (second function) `for k, v in d.items()`, `d[k] = v`, `d[k][j] = v`, `d[k] = x = v` (x stays an alias of the slot:
+               `x._stereo = e` rewrites the slot), `{}`, `a.copy(hydrogens=True)` = Model.Reactor.plain_atom, `b.copy()` = plain,
+               `x.stereo`, `e is not None`, `k in d[j]` (KeyError when j is missing), `l.append(e)` / `l.append((e, f))` on a list
 The generated function is proved EQUAL to the hand-written Model.Reactor.get_deleted (proofs/ReactorBodyTie.v), so the
 theorems of props/C16.v about get_deleted are theorems about the translated source text."""
 import ast
@@ -26,14 +34,31 @@ sys.path.insert(0, os.path.dirname(__file__))
 from coqfmt import *  # noqa
 
 SOURCE = 'chython/reactor/base.py'
-CLASS, FUNCTION = 'BaseReactor', '_get_deleted'
+CLASS = 'BaseReactor'
 # parameters and the attributes of parameters the body may read: python expression -> (coq name, kind, coq type)
-PARAMS = [('self._to_delete', 'self_to_delete', 'set', 'list Z'),
-          ('structure._bonds', 'structure_bonds', 'adj', 'graph'),
-          ('mapping', 'mapping', 'map', 'list (Z * Z)')]
-ARGS = ['self', 'structure', 'mapping']
+GD_PARAMS = [('self._to_delete', 'self_to_delete', 'set', 'list Z'),
+             ('structure._bonds', 'structure_bonds', 'adj', 'graph'),
+             ('mapping', 'mapping', 'map', 'list (Z * Z)')]
+GD_ARGS = ['self', 'structure', 'mapping']
+# the region of _patcher: what its free names are bound to (checked against the prologue of the function by `prologue`)
+PK_PROLOGUE = {'satoms': 'structure._atoms', 'sbonds': 'structure._bonds', 'to_delete': 'self._get_deleted(structure, mapping)',
+               'new': 'structure.__class__()', 'natoms': 'new._atoms', 'nbonds': 'new._bonds', 'stereo_atoms': '[]', 'stereo_bonds': '[]'}
+PK_PARAMS = [('structure.stereogenic_tetrahedrons', 'tetrahedrons', 'set', 'list Z'),
+             ('set(new)', '(py_set (keys natoms))', 'set', None)]   # new._atoms is natoms (prologue): iterating `new` lists its keys
+# name -> (kind, built here / may be mutated); order = order of the state tuples
+PK_ENV = [('satoms', 'atoms', False, 'list (Z * atom)'), ('sbonds', 'bonds', False, 'list (Z * list (Z * bond))'),
+          ('to_delete', 'set', False, 'list Z'), ('natoms', 'atoms', True, 'list (Z * atom)'),
+          ('nbonds', 'bonds', True, 'list (Z * list (Z * bond))'), ('stereo_atoms', 'ilist', True, 'list Z'),
+          ('stereo_bonds', 'plist', True, 'list (Z * Z)')]
+PK_RESULT = ['natoms', 'nbonds', 'stereo_atoms', 'stereo_bonds']
 
-PRELUDE = r'''(* GENERATED by tools/gen_reactorbody.py from chython/reactor/base.py (BaseReactor._get_deleted). Do not edit. *)
+DICT_ELEM = {'adj': 'set', 'map': 'int', 'atoms': 'atom', 'bonds': 'nbrs', 'nbrs': 'bond', 'ratoms': 'ratom'}
+ATOM_SET = {'charge': ('int', 'set_a_chg'), 'is_radical': ('bool', 'set_a_rad'), '_stereo': ('ostereo', 'set_a_stereo'),
+            '_implicit_hydrogens': ('oint', 'set_a_h')}
+RATOM_GET = {'charge': ('int', 'r_chg'), 'is_radical': ('bool', 'r_rad'), 'stereo': ('ostereo', 'r_stereo'), 'isotope': ('oint', 'r_iso'),
+             'atomic_number': ('int', 'r_num')}
+
+PRELUDE = r"""(* GENERATED by tools/gen_reactorbody.py from chython/reactor/base.py (BaseReactor._get_deleted, part of _patcher). Do not edit. *)
 From Coq Require Import ZArith List Bool.
 From Model Require Import PyBase Graph Reactor.
 Import ListNotations.
@@ -42,6 +67,22 @@ Open Scope Z_scope.
 (* ---- the fixed vocabulary of the translation ---- *)
 Definition py_set (l : list Z) : list Z := nodup Z.eq_dec l.                                  (* set(iterable) *)
 Definition py_nonempty {A} (l : list A) : bool := match l with [] => false | _ => true end.   (* truth value of a container *)
+Definition py_is_some {A} (o : option A) : bool := match o with Some _ => true | None => false end.   (* x is not None *)
+Definition set_a_stereo (a : atom) (s : option bool) : atom := mkAtom (a_num a) (a_iso a) (a_chg a) (a_rad a) (a_h a) s.  (* a._stereo = s *)
+Definition set_a_chg (a : atom) (c : Z) : atom := mkAtom (a_num a) (a_iso a) c (a_rad a) (a_h a) (a_stereo a).            (* a.charge = c *)
+Definition set_a_rad (a : atom) (r : bool) : atom := mkAtom (a_num a) (a_iso a) (a_chg a) r (a_h a) (a_stereo a).          (* a.is_radical = r *)
+Definition set_a_h (a : atom) (h : option Z) : atom := mkAtom (a_num a) (a_iso a) (a_chg a) (a_rad a) h (a_stereo a).     (* a._implicit_hydrogens = h *)
+Definition set_b_stereo (b : bond) (s : option bool) : bond := mkBond (b_ord b) s.                                        (* b._stereo = s *)
+Definition copy_atom (a : atom) : atom := mkAtom (a_num a) (a_iso a) (a_chg a) (a_rad a) None None.                       (* a.copy() *)
+(* an atom of the replacement as _patcher reads it: its class and the attributes the code looks at *)
+Inductive rkind := KAny | KQuery | KElement.                                            (* AnyElement / QueryElement / Element *)
+Record gratom := mkGR {
+  r_kind : rkind; r_num : Z; r_iso : option Z; r_chg : Z; r_rad : bool; r_stereo : option bool;
+  r_h : option Z;      (* Element.implicit_hydrogens *)
+  r_hs : list Z        (* QueryElement.implicit_hydrogens (a tuple) *)
+}.
+Definition is_kind (k : rkind) (ra : gratom) : bool :=
+  match k, r_kind ra with KAny, KAny | KQuery, KQuery | KElement, KElement => true | _, _ => false end.
 (* for v in l: body   (body : state -> v -> state or exception) *)
 Definition py_for {S A : Type} (l : list A) (body : S -> A -> pyres S) (s : S) : pyres S := fold_res body l s.
 (* while cond: body   (Python has no bound; running out of fuel is the model artefact Err OtherError) *)
@@ -59,12 +100,15 @@ Fixpoint py_map_res {A B : Type} (f : A -> pyres B) (l : list A) : pyres (list B
               | Ok v => match py_map_res f r with Err e => Err e | Ok vs => Ok (v :: vs) end
               end
   end.
-'''
+"""
 
 
 class Tr:
-    def __init__(self, path):
+    def __init__(self, path, params, args, skip=()):
         self.path = path
+        self.params = params
+        self.args = args
+        self.skip = set(skip)
         self.tmp = 0
 
     def err(self, node, what):
@@ -74,15 +118,28 @@ class Tr:
         self.tmp += 1
         return f'{base}_{self.tmp}'
 
-    # ------------------------------------------------------------------ expressions (continuation style: k(kind, text) -> text)
+    # ------------------------------------------------------------------ expressions (continuation style: k(kind, text, env) -> text)
     def param(self, e):
-        try:
-            src = ast.unparse(e)
-        except Exception:  # pragma: no cover
-            return None
-        for py, coq, kind, _ in PARAMS:
+        src = ast.unparse(e)
+        for py, coq, kind, _ in self.params:
             if src == py:
                 return kind, coq
+        return None
+
+    def attr(self, e, env):
+        """x.<attribute> of a record variable -> (kind, text) or None"""
+        if not (isinstance(e, ast.Attribute) and isinstance(e.value, ast.Name) and e.value.id in env):
+            return None
+        x, kind = e.value.id, env[e.value.id][0]
+        if kind in ('atom', 'bond') and e.attr == 'stereo':
+            return 'ostereo', f'({"a" if kind == "atom" else "b"}_stereo {x})'
+        if kind.startswith('ratom'):
+            if e.attr in RATOM_GET:
+                return RATOM_GET[e.attr][0], f'({RATOM_GET[e.attr][1]} {x})'
+            if e.attr == 'implicit_hydrogens' and kind == 'ratom:Element':
+                return 'oint', f'(r_h {x})'
+            if e.attr == 'implicit_hydrogens' and kind == 'ratom:Query':
+                return 'ituple', f'(r_hs {x})'
         return None
 
     def expr(self, e, env, k, pad):
@@ -94,18 +151,33 @@ class Tr:
             if p:
                 return k(p[0], p[1], env)
             self.err(e, 'unknown name')
-        if isinstance(e, ast.Attribute):
+        if isinstance(e, (ast.Attribute, ast.Call)):
             p = self.param(e)
             if p:
                 return k(p[0], p[1], env)
+        if isinstance(e, ast.Attribute):
+            a = self.attr(e, env)
+            if a:
+                return k(a[0], a[1], env)
             self.err(e, 'attribute')
+        if (isinstance(e, ast.BinOp) and isinstance(e.op, ast.Add) and isinstance(e.left, ast.Name) and env.get(e.left.id, (None,))[0] == 'int'
+                and isinstance(e.right, ast.Constant) and type(e.right.value) is int and e.right.value >= 0):
+            return k('int', f'({e.left.id} + {e.right.value})', env)
         if isinstance(e, ast.Constant) and e.value is True:
             return k('bool', 'true', env)
         if isinstance(e, ast.Constant) and e.value is False:
             return k('bool', 'false', env)
+        if isinstance(e, ast.Dict) and not e.keys:
+            return k('emptydict', '[]', env)
+        if isinstance(e, ast.Tuple) and len(e.elts) == 2 and all(isinstance(x, ast.Name) and env.get(x.id, (None,))[0] == 'int' for x in e.elts):
+            return k('pair', f'({e.elts[0].id}, {e.elts[1].id})', env)
+        if isinstance(e, ast.Subscript) and isinstance(e.slice, ast.Constant) and e.slice.value == 0 and (self.attr(e.value, env) or ('',))[0] == 'ituple':
+            t = self.attr(e.value, env)[1]
+            v = self.fresh('first')
+            return f'{pad}match {t} with\n{pad}| [] => Err IndexError\n{pad}| {v} :: _ =>\n' + k('int', v, env) + f'\n{pad}end'
         if isinstance(e, ast.Subscript):
             def after_value(kind, d, env1):
-                if kind not in ('adj', 'map'):
+                if kind not in DICT_ELEM:
                     self.err(e, 'subscript of something that is not a dict')
 
                 def after_key(kk, key, env2):
@@ -113,11 +185,40 @@ class Tr:
                         self.err(e, 'dict key is not an atom number')
                     v = self.fresh('item')
                     return (f'{pad}match zget {d} {key} with\n{pad}| None => Err KeyError\n{pad}| Some {v} =>\n'
-                            + k('set' if kind == 'adj' else 'int', v, env2) + f'\n{pad}end')
+                            + k(DICT_ELEM[kind], v, env2) + f'\n{pad}end')
                 return self.expr(e.slice, env1, after_key, pad)
             return self.expr(e.value, env, after_value, pad)
         if isinstance(e, ast.Call):
             f = e.func
+            # a.copy(hydrogens=True) of an atom, b.copy() of a bond
+            if isinstance(f, ast.Attribute) and f.attr == 'copy' and isinstance(f.value, ast.Name) and not e.args:
+                kind = env.get(f.value.id, (None,))[0]
+                kw = [(w.arg, ast.unparse(w.value)) for w in e.keywords]
+                if kind == 'atom' and kw == [('hydrogens', 'True')]:
+                    return k('atom', f'(plain_atom {f.value.id})', env)
+                if kind == 'atom' and not kw:
+                    return k('atom', f'(copy_atom {f.value.id})', env)
+                if kind == 'bond' and not kw:
+                    return k('bond', f'(plain {f.value.id})', env)
+                self.err(e, 'copy')
+            # Bond(int(rb)): a new bond of the order of rb, without label
+            if (isinstance(f, ast.Name) and f.id == 'Bond' and len(e.args) == 1 and not e.keywords and isinstance(e.args[0], ast.Call)
+                    and isinstance(e.args[0].func, ast.Name) and e.args[0].func.id == 'int' and len(e.args[0].args) == 1 and not e.args[0].keywords
+                    and isinstance(e.args[0].args[0], ast.Name) and env.get(e.args[0].args[0].id, (None,))[0] == 'bond'):
+                return k('bond', f'(mkBond (b_ord {e.args[0].args[0].id}) None)', env)
+            # Element.from_atomic_number(ra.atomic_number): the element class = its atomic number
+            if ast.unparse(f) == 'Element.from_atomic_number' and len(e.args) == 1 and not e.keywords:
+                a = self.attr(e.args[0], env)
+                if not a or a[0] != 'int':
+                    self.err(e, 'from_atomic_number')
+                return k('elemclass', a[1], env)
+            # e(ra.isotope, charge=ra.charge, is_radical=ra.is_radical): a new atom without hydrogen count and label
+            if isinstance(f, ast.Name) and env.get(f.id, (None,))[0] == 'elemclass':
+                got = [self.attr(x, env) for x in e.args] + [self.attr(w.value, env) for w in e.keywords]
+                if len(e.args) != 1 or [w.arg for w in e.keywords] != ['charge', 'is_radical'] or None in got \
+                        or [g[0] for g in got] != ['oint', 'int', 'bool']:
+                    self.err(e, 'element constructor')
+                return k('atom', f'(mkAtom {f.id} {got[0][1]} {got[1][1]} {got[2][1]} None None)', env)
             if e.keywords:
                 self.err(e, 'keyword arguments')
             # set()
@@ -176,12 +277,13 @@ class Tr:
             return self.expr(g.iter, env, after_iter, pad)
         self.err(e, 'expression')
 
-    # ------------------------------------------------------------------ tests (pure)
+    # ------------------------------------------------------------------ tests
     def test(self, t, env):
+        """a test that cannot raise -> boolean Coq text"""
         if isinstance(t, ast.Name):
             kind = env.get(t.id, (None,))[0] or (self.param(t) or (None,))[0]
             if kind in ('set', 'stack'):
-                return f'py_nonempty {self.pure(t, env)}'
+                return f'py_nonempty {self.pure(t, env)[1]}'
             if kind == 'bool':
                 return t.id
             self.err(t, 'truth value')
@@ -196,23 +298,114 @@ class Tr:
             op = ' || ' if isinstance(t.op, ast.Or) else ' && '
             return '(' + op.join(self.test(v, env) for v in t.values) + ')'
         if isinstance(t, ast.Compare) and len(t.ops) == 1 and isinstance(t.ops[0], (ast.In, ast.NotIn)):
-            a = self.pure(t.left, env, 'int')
-            s = self.pure(t.comparators[0], env, 'set')
-            r = f'zmem {a} {s}'
+            ka, a = self.pure(t.left, env)
+            ks, s = self.pure(t.comparators[0], env)
+            if ka != 'int':
+                self.err(t, 'membership of something that is not an atom number')
+            r = self.member(t, a, ks, s)
             return r if isinstance(t.ops[0], ast.In) else f'negb ({r})'
+        if (isinstance(t, ast.Compare) and len(t.ops) == 1 and isinstance(t.ops[0], (ast.IsNot, ast.Is)) and isinstance(t.comparators[0], ast.Constant)
+                and t.comparators[0].value is None):
+            k, x = self.pure(t.left, env)
+            if k != 'ostereo':
+                self.err(t, '`is [not] None` of something that is not a stereo label')
+            return f'py_is_some {x}' if isinstance(t.ops[0], ast.IsNot) else f'negb (py_is_some {x})'
+        if isinstance(t, ast.Compare) and len(t.ops) == 1 and isinstance(t.ops[0], (ast.NotEq, ast.Eq)):
+            (k1, x1), (k2, x2) = self.pure(t.left, env), self.pure(t.comparators[0], env)
+            if (k1, k2) != ('bond', 'bond'):
+                self.err(t, 'comparison of things that are not bonds')
+            r = f'(b_ord {x1} =? b_ord {x2})'      # Bond.__eq__ compares the orders
+            return r if isinstance(t.ops[0], ast.Eq) else f'negb {r}'
         self.err(t, 'test')
 
-    def pure(self, e, env, want=None):
+    def member(self, node, a, ks, s):
+        if ks == 'set':
+            return f'zmem {a} {s}'
+        if ks in ('atoms', 'bonds', 'nbrs', 'map', 'adj'):
+            return f'zmem {a} (keys {s})'
+        self.err(node, 'membership in something that is not a set or dict')
+
+    def pure(self, e, env):
+        """an operand that cannot raise -> (kind, text)"""
         if isinstance(e, ast.Name) and e.id in env:
-            kind, text = env[e.id][0], e.id
-        else:
-            p = self.param(e) if isinstance(e, (ast.Name, ast.Attribute)) else None
-            if not p:
-                self.err(e, 'unknown name' if isinstance(e, ast.Name) else 'operand of a test must be a name')
-            kind, text = p
-        if want and kind != want:
-            self.err(e, f'expected {want}, found {kind}')
-        return text
+            return env[e.id][0], e.id
+        a = self.attr(e, env)
+        if a:
+            return a
+        p = self.param(e) if isinstance(e, (ast.Name, ast.Attribute, ast.Call)) else None
+        if not p:
+            self.err(e, 'unknown name' if isinstance(e, ast.Name) else 'operand of a test must be a name')
+        return p
+
+    def cond(self, t, env, k, pad):
+        """if-test -> k(boolean text); the one raising form is `a in d[j]` / `a not in d[j]` standing alone"""
+        if (isinstance(t, ast.Compare) and len(t.ops) == 1 and isinstance(t.ops[0], (ast.In, ast.NotIn))
+                and isinstance(t.comparators[0], ast.Subscript)):
+            ka, a = self.pure(t.left, env)
+            if ka != 'int':
+                self.err(t, 'membership of something that is not an atom number')
+
+            def after(ks, s, _env):
+                r = self.member(t, a, ks, s)
+                return k(r if isinstance(t.ops[0], ast.In) else f'negb ({r})')
+            return self.expr(t.comparators[0], env, after, pad)
+        return k(self.test(t, env))
+
+    def branch(self, t, env, kthen, kelse, pad):
+        """if t: kthen(env') else: kelse(env'') -- the branches may see different scopes (walrus, isinstance)"""
+        neg = False
+        while isinstance(t, ast.UnaryOp) and isinstance(t.op, ast.Not) and isinstance(t.operand, (ast.NamedExpr, ast.UnaryOp)):
+            t, neg = t.operand, not neg
+        if neg:
+            kthen, kelse = kelse, kthen
+        # A or B or ... with walrus bindings: tested from left to right, each with the scope the earlier ones left behind
+        if isinstance(t, ast.BoolOp) and isinstance(t.op, ast.Or) and any(isinstance(x, ast.NamedExpr) for x in ast.walk(t)) and not neg:
+            rest = t.values[1] if len(t.values) == 2 else ast.BoolOp(op=ast.Or(), values=t.values[1:])
+            return self.branch(t.values[0], env, kthen, lambda e: self.branch(rest, e, kthen, kelse, pad + '  '), pad)
+        # (x := d.get(k)) is None
+        if (isinstance(t, ast.Compare) and len(t.ops) == 1 and isinstance(t.ops[0], ast.Is) and isinstance(t.comparators[0], ast.Constant)
+                and t.comparators[0].value is None and isinstance(t.left, ast.NamedExpr) and not neg):
+            v = t.left.value
+            if not (isinstance(v, ast.Call) and isinstance(v.func, ast.Attribute) and v.func.attr == 'get' and isinstance(v.func.value, ast.Name)
+                    and len(v.args) == 1 and not v.keywords and isinstance(v.args[0], ast.Name)):
+                self.err(t, 'walrus')
+            d, key, x = v.func.value.id, v.args[0].id, t.left.target.id
+            if env.get(d, (None,))[0] not in ('bonds', 'nbrs') or env.get(key, (None,))[0] != 'int' or x in self.args or x in env:
+                self.err(t, 'walrus over something that is not a dict of bonds')
+            e2 = dict(env)
+            e2[x] = (DICT_ELEM[env[d][0]], False, None)
+            return (f'{pad}match zget {d} {key} with\n{pad}| None =>\n' + kthen(dict(env)) + f'\n{pad}| Some {x} =>\n' + kelse(e2) + f'\n{pad}end')
+        # (m := d.get(k)) as a truth value: a missing key and the number 0 are both false (Model.Reactor.truthy_get)
+        if isinstance(t, ast.NamedExpr):
+            v = t.value
+            if not (isinstance(v, ast.Call) and isinstance(v.func, ast.Attribute) and v.func.attr == 'get' and isinstance(v.func.value, ast.Name)
+                    and len(v.args) == 1 and not v.keywords and isinstance(v.args[0], ast.Name)):
+                self.err(t, 'walrus')
+            d, key, m = v.func.value.id, v.args[0].id, t.target.id
+            if env.get(d, (None,))[0] != 'map' or env.get(key, (None,))[0] != 'int' or m in self.args:
+                self.err(t, 'walrus over something that is not an int->int dict')
+            e1, e2 = dict(env), dict(env)
+            self.drop_aliases(e1, [m])
+            self.drop_aliases(e2, [m])
+            e1[m] = ('int', False, None)
+            e2.pop(m, None)      # None / 0: not an atom number; reading it before it is re-bound is refused
+            return (f'{pad}match truthy_get {d} {key} with\n{pad}| Some {m} =>\n' + kthen(e1) + f'\n{pad}| None =>\n' + kelse(e2) + f'\n{pad}end')
+        if (isinstance(t, ast.Call) and isinstance(t.func, ast.Name) and t.func.id == 'isinstance' and len(t.args) == 2 and not t.keywords
+                and isinstance(t.args[0], ast.Name) and isinstance(t.args[1], ast.Name)):
+            x, cls = t.args[0].id, t.args[1].id
+            kind = env.get(x, (None,))[0]
+            if not kind or not kind.startswith('ratom') or cls not in ('AnyElement', 'Element'):
+                self.err(t, 'isinstance')
+            e1, e2 = dict(env), dict(env)
+            if cls == 'AnyElement':
+                e1[x], e2[x] = ('ratom:Any', False, None), ('ratom:notAny', False, None)
+            else:
+                e1[x] = ('ratom:Element', False, None)
+                e2[x] = ('ratom:Query' if kind == 'ratom:notAny' else kind, False, None)
+            return (f'{pad}if is_kind {"KAny" if cls == "AnyElement" else "KElement"} {x}\n{pad}then\n' + kthen(e1) + f'\n{pad}else\n' + kelse(e2))
+        if isinstance(t, ast.Attribute) and (self.attr(t, env) or ('',))[0] == 'ituple':
+            return f'{pad}if py_nonempty {self.attr(t, env)[1]}\n{pad}then\n' + kthen(dict(env)) + f'\n{pad}else\n' + kelse(dict(env))
+        return self.cond(t, env, lambda c: f'{pad}if {c}\n{pad}then\n' + kthen(dict(env)) + f'\n{pad}else\n' + kelse(dict(env)), pad)
 
     # ------------------------------------------------------------------ which variables a block assigns or mutates
     def writes(self, stmts):
@@ -221,16 +414,27 @@ class Tr:
         def add(n):
             if n not in out:
                 out.append(n)
+
+        def base(x):
+            while isinstance(x, (ast.Subscript, ast.Attribute)):
+                x = x.value
+            return x.id if isinstance(x, ast.Name) else None
         for node in stmts:
+            bare = {id(x.target) for x in ast.walk(node) if isinstance(x, ast.AnnAssign) and x.value is None}   # `x: T` binds nothing
             for sub in ast.walk(node):
-                if isinstance(sub, ast.Name) and isinstance(sub.ctx, ast.Store):
+                if isinstance(sub, ast.Name) and isinstance(sub.ctx, ast.Store) and id(sub) not in bare:
                     add(sub.id)
+                elif isinstance(sub, (ast.Subscript, ast.Attribute)) and isinstance(sub.ctx, ast.Store):
+                    b = base(sub)
+                    if b is None:
+                        self.err(sub, 'assignment target')
+                    add(b)
                 elif isinstance(sub, ast.Call) and isinstance(sub.func, ast.Attribute) and isinstance(sub.func.value, ast.Name):
                     if sub.func.attr in ('add', 'update', 'append', 'pop', 'remove', 'discard', 'clear', 'extend', 'insert',
                                          'difference_update', 'intersection_update', 'symmetric_difference_update', 'sort', 'reverse',
                                          'popitem', 'setdefault'):
                         add(sub.func.value.id)
-                elif isinstance(sub, (ast.AugAssign, ast.Delete, ast.NamedExpr, ast.Global, ast.Nonlocal, ast.Lambda, ast.FunctionDef,
+                elif isinstance(sub, (ast.AugAssign, ast.Delete, ast.Global, ast.Nonlocal, ast.Lambda, ast.FunctionDef,
                                       ast.ClassDef, ast.Try, ast.With, ast.Yield, ast.YieldFrom, ast.Await, ast.Break)):
                     self.err(sub, 'statement outside the fragment')
         return out
@@ -243,9 +447,35 @@ class Tr:
     def pat(names):
         return '_' if not names else names[0] if len(names) == 1 else "'(" + ', '.join(names) + ')'
 
+    @staticmethod
+    def drop_aliases(env, names):
+        """an object variable stays an alias of a dict slot only while neither the dict variable nor the key variable is re-bound"""
+        for x, v in list(env.items()):
+            if len(v) > 2 and v[2] and any(x in names for x in v[2]):
+                env[x] = (v[0], False, None)
+
     # ------------------------------------------------------------------ statements
+    def store(self, s, target, kind, text, env, pad):
+        """`target = <value text of kind>` for a Name / d[k] / d[k][j] target -> (coq lets, new env)"""
+        env = dict(env)
+        if isinstance(target, ast.Name):
+            if target.id in self.args or any(target.id == c for _, c, _, _ in self.params):
+                self.err(s, 'assignment to a parameter')
+            self.drop_aliases(env, [target.id])
+            env[target.id] = (kind, kind in ('set', 'stack'), None)
+            return f'{pad}let {target.id} := {text} in\n', env
+        if isinstance(target, ast.Subscript) and isinstance(target.value, ast.Name) and isinstance(target.slice, ast.Name):
+            d, key = target.value.id, target.slice.id
+            if d not in env or not env[d][1] or env[d][0] not in ('atoms', 'bonds', 'map') or env.get(key, (None,))[0] != 'int':
+                self.err(s, 'item assignment into something that is not a dict built here')
+            want = DICT_ELEM[env[d][0]]
+            if kind != want and not (kind == 'emptydict' and want == 'nbrs'):
+                self.err(s, f'item of kind {kind} stored into a dict of {want}')
+            return f'{pad}let {d} := zset {d} {key} {text} in\n', env
+        self.err(s, 'assignment target')
+
     def block(self, stmts, env, tail, in_loop, ind):
-        """Coq text (type pyres _) of running stmts in scope env; tail(env) = what happens when the block falls off its end"""
+        """Coq text (type pyres _) of running stmts in scope env; tail(env, ind) = what happens when the block falls off its end"""
         pad = '  ' * ind
         if not stmts:
             return tail(env, ind)
@@ -265,42 +495,122 @@ class Tr:
                 self.err(s, 'continue outside a loop')
             return tail(env, ind)
         if isinstance(s, ast.If):
-            c = self.test(s.test, env)
-            return (f'{pad}if {c}\n{pad}then\n' + self.block(list(s.body) + rest, dict(env), tail, in_loop, ind + 1)
-                    + f'\n{pad}else\n' + self.block(list(s.orelse) + rest, dict(env), tail, in_loop, ind + 1))
+            return self.branch(s.test, env, lambda e1: self.block(list(s.body) + rest, e1, tail, in_loop, ind + 1),
+                               lambda e2: self.block(list(s.orelse) + rest, e2, tail, in_loop, ind + 1), pad)
+        if isinstance(s, ast.AnnAssign) and s.value is None and isinstance(s.target, ast.Name):
+            return go(env)                     # a bare annotation `x: T` does nothing at run time
+        if isinstance(s, ast.Raise) and s.cause is None and isinstance(s.exc, ast.Call) and isinstance(s.exc.func, ast.Name) \
+                and s.exc.func.id in ('ValueError', 'KeyError', 'TypeError', 'IndexError'):
+            return f'{pad}Err {s.exc.func.id}'
+        if isinstance(s, ast.Assign) and ast.unparse(s).replace(' ', '') in self.skip:
+            return go(env)                     # coordinates are not modelled (listed in SKIP, nothing else is skipped)
         if isinstance(s, ast.Assign):
-            if len(s.targets) != 1:
-                self.err(s, 'chained assignment')
             t = s.targets[0]
+            # d[k][j] = e  (the value first, then d[k] is looked up, then the item is stored)
+            if (len(s.targets) in (1, 2) and isinstance(t, ast.Subscript) and isinstance(t.value, ast.Subscript)
+                    and isinstance(t.value.value, ast.Name) and isinstance(t.value.slice, ast.Name) and isinstance(t.slice, ast.Name)
+                    and (len(s.targets) == 1 or (isinstance(s.targets[1], ast.Name) and isinstance(s.value, ast.Call)))):
+                d, k1, k2 = t.value.value.id, t.value.slice.id, t.slice.id
+                if d not in env or not env[d][1] or env[d][0] != 'bonds' or any(env.get(x, (None,))[0] != 'int' for x in (k1, k2)):
+                    self.err(s, 'nested item assignment into something that is not the adjacency built here')
+
+                def k(kind, text, env1):
+                    if kind != 'bond':
+                        self.err(s, 'the stored item is not a bond')
+                    v = self.fresh('inner')
+                    more = ''
+                    if len(s.targets) == 2:          # d[k][j] = x = <new object>: x stays the object in the slot
+                        x = s.targets[1].id
+                        if x in self.args or x in (d, k1, k2):
+                            self.err(s, 'assignment target')
+                        tmp = self.fresh('value')
+                        more, text = f'{pad}let {tmp} := {text} in\n', tmp
+                        env1 = dict(env1)
+                        self.drop_aliases(env1, [x])
+                        env1[x] = ('bond', True, (d, k1, k2))
+                    return (more + f'{pad}match zget {d} {k1} with\n{pad}| None => Err KeyError\n{pad}| Some {v} =>\n'
+                            f'{pad}let {d} := zset {d} {k1} (zset {v} {k2} {text}) in\n'
+                            + (f'{pad}let {s.targets[1].id} := {text} in\n' if len(s.targets) == 2 else '') + go(env1) + f'\n{pad}end')
+                return self.expr(s.value, env, k, pad)
+            # b._stereo = e   where b is a bond built here that sits in the slot d[k][j]
+            if (len(s.targets) == 1 and isinstance(t, ast.Attribute) and t.attr == '_stereo' and isinstance(t.value, ast.Name)
+                    and env.get(t.value.id, (None,))[0] == 'bond'):
+                x = t.value.id
+                v = env[x]
+                if not (v[1] and len(v) > 2 and v[2] and len(v[2]) == 3):
+                    self.err(s, 'attribute assignment to a bond that was not built in this function')
+                d, k1, k2 = v[2]
+                ko, o = self.pure(s.value, env)
+                if ko != 'ostereo':
+                    self.err(s, 'stereo label expected')
+                inner = self.fresh('inner')
+                return (f'{pad}let {x} := set_b_stereo {x} {o} in\n{pad}match zget {d} {k1} with\n{pad}| None => Err KeyError\n{pad}| Some {inner} =>\n'
+                        f'{pad}let {d} := zset {d} {k1} (zset {inner} {k2} {x}) in\n' + go(env) + f'\n{pad}end')
+            # x.<attr> = e   where x is an atom built here (a copy / a new element); if it already sits in a dict slot the slot is rewritten
+            if len(s.targets) == 1 and isinstance(t, ast.Attribute) and t.attr in ATOM_SET and isinstance(t.value, ast.Name):
+                x = t.value.id
+                v = env.get(x)
+                if not v or v[0] != 'atom' or not (v[1] or (len(v) > 2 and v[2])):
+                    self.err(s, 'attribute assignment to an object that was not built in this function')
+                want, setter = ATOM_SET[t.attr]
+
+                def k(kind, text, env1):
+                    if kind == 'int' and want == 'oint':
+                        kind, text = 'oint', f'(Some {text})'
+                    if kind != want:
+                        self.err(s, f'{want} expected, found {kind}')
+                    out = f'{pad}let {x} := {setter} {x} {text} in\n'
+                    if len(v) > 2 and v[2]:
+                        out += f'{pad}let {v[2][0]} := zset {v[2][0]} {v[2][1]} {x} in\n'
+                    return out + go(env1)
+                return self.expr(s.value, env, k, pad)
             if isinstance(t, ast.Tuple):
+                if len(s.targets) != 1:
+                    self.err(s, 'chained tuple assignment')
                 if not (isinstance(s.value, ast.Tuple) and len(s.value.elts) == len(t.elts)):
                     self.err(s, 'tuple assignment shape')
-                pairs = list(zip(t.elts, s.value.elts))
+                pairs = [([tt], v) for tt, v in zip(t.elts, s.value.elts)]
                 # right-hand sides are evaluated before any target is bound: only values that read no variable are accepted
                 for _, v in pairs:
                     if any(isinstance(x, ast.Name) and x.id != 'set' for x in ast.walk(v)):
                         self.err(s, 'tuple assignment whose values read variables')
             else:
-                pairs = [(t, s.value)]
-            for tt, _ in pairs:
-                if not isinstance(tt, ast.Name):
-                    self.err(s, 'assignment target')
-                if tt.id in ARGS or any(tt.id == c for _, c, _, _ in PARAMS):
-                    self.err(s, 'assignment to a parameter')
+                pairs = [(list(s.targets), s.value)]   # a = b = e : e once, then the targets from left to right
 
             def bind(i, env1):
                 if i == len(pairs):
                     return go(env1)
-                tt, v = pairs[i]
-                # a value that is another variable / a parameter attribute is an alias: it may be read, never mutated
-                owned = not isinstance(v, (ast.Name, ast.Attribute))
-                if isinstance(v, ast.Name) and v.id in env1 and env1[v.id][1]:
+                targets, v = pairs[i]
+                into_slot = isinstance(v, ast.Name) and env1.get(v.id, (None,))[0] == 'atom' and all(isinstance(x, ast.Subscript) for x in targets)
+                if isinstance(v, ast.Name) and v.id in env1 and env1[v.id][1] and not into_slot:
                     self.err(s, 'alias of a mutable container built here')
 
                 def k(kind, text, env2):
-                    env3 = dict(env2)
-                    env3[tt.id] = (kind, owned and kind in ('set', 'stack'))
-                    return f'{pad}let {tt.id} := {text} in\n' + bind(i + 1, env3)
+                    out = ''
+                    if len(targets) > 1:
+                        tmp = self.fresh('value')
+                        out += f'{pad}let {tmp} := {text} in\n'
+                        text = tmp
+                    slot = None
+                    for tt in targets:
+                        if isinstance(tt, ast.Name) and kind in ('set', 'stack') and isinstance(v, (ast.Name, ast.Attribute)):
+                            lets, env2 = self.store(s, tt, kind, text, env2, pad)
+                            env2[tt.id] = (kind, False, None)      # alias of a parameter / another variable: read-only
+                        else:
+                            lets, env2 = self.store(s, tt, kind, text, env2, pad)
+                        out += lets
+                        if isinstance(tt, ast.Subscript):
+                            slot = (tt.value.id, tt.slice.id)
+                    if kind in ('atom', 'bond'):
+                        names = [tt.id for tt in targets if isinstance(tt, ast.Name)]
+                        fresh_obj = isinstance(v, ast.Call)          # a copy: no other reference exists
+                        if len(names) > 1 or (names and not fresh_obj and slot):
+                            self.err(s, 'several names for one object')
+                        for nme in names:
+                            env2[nme] = (kind, fresh_obj, slot if fresh_obj else None)
+                        if into_slot and slot:             # d[k] = x : x stays the object in the slot
+                            env2[v.id] = (kind, env2[v.id][1], slot)
+                    return out + bind(i + 1, env2)
                 return self.expr(v, env1, k, pad)
             return bind(0, env)
         if isinstance(s, ast.Expr) and isinstance(s.value, ast.Call) and isinstance(s.value.func, ast.Attribute) \
@@ -317,6 +627,8 @@ class Tr:
                     new = f'zunion {a} {name}'
                 elif (kind, meth, ka) == ('stack', 'append', 'int'):
                     new = f'{a} :: {name}'
+                elif (kind, meth, ka) in (('ilist', 'append', 'int'), ('plist', 'append', 'pair')):
+                    new = f'{name} ++ [{a}]'
                 else:
                     self.err(s, 'method call')
                 return f'{pad}let {name} := {new} in\n' + go(env1)
@@ -327,40 +639,183 @@ class Tr:
             written = self.writes(s.body)
             state = [n for n in env if n in written]
             inner_tail = lambda env1, ind1: '  ' * ind1 + f'Ok {self.tup(state)}'  # noqa: E731
+            okpat = self.pat(state).lstrip(chr(39))
             if isinstance(s, ast.For):
-                if not isinstance(s.target, ast.Name):
-                    self.err(s, 'loop target')
-                v = s.target.id
-                if v in env or v in written:
-                    self.err(s, 'loop variable shadows a variable')
-                if isinstance(s.iter, ast.Name) and s.iter.id in written:
+                # for v in <set>   |   for k, v in <dict>.items()
+                items = (isinstance(s.iter, ast.Call) and isinstance(s.iter.func, ast.Attribute) and s.iter.func.attr in ('items', 'atoms')
+                         and not s.iter.args and not s.iter.keywords)
+                if items:
+                    if not (isinstance(s.target, ast.Tuple) and len(s.target.elts) == 2 and all(isinstance(x, ast.Name) for x in s.target.elts)):
+                        self.err(s, 'loop target of .items()')
+                    names = [x.id for x in s.target.elts]
+                    it_expr = s.iter.func.value
+                else:
+                    if not isinstance(s.target, ast.Name):
+                        self.err(s, 'loop target')
+                    names = [s.target.id]
+                    it_expr = s.iter
+                for v in names:
+                    # (the body may re-bind its own loop variable: `n = mapping[n]`; the next iteration binds it afresh)
+                    if v in env or names.count(v) > 1:
+                        self.err(s, 'loop variable shadows a variable')
+                    if any(isinstance(x, ast.Name) and x.id == v for x in ast.walk(s.iter)):
+                        self.err(s, 'loop variable inside its iterable')
+                if isinstance(it_expr, ast.Name) and it_expr.id in written:
                     self.err(s, 'the iterated container is changed inside the loop')
 
                 def k(kind, it, env1):
-                    if kind != 'set':
-                        self.err(s, 'iteration over something that is not a set of atom numbers')
                     benv = dict(env1)
-                    benv[v] = ('int', False)
+                    if items:
+                        if kind not in (('ratoms',) if s.iter.func.attr == 'atoms' else ('atoms', 'bonds', 'nbrs')):
+                            self.err(s, '.items() / .atoms() of something that is not a dict of atoms / bonds')
+                        benv[names[0]] = ('int', False, None)
+                        benv[names[1]] = (DICT_ELEM[kind], False, None)
+                        vpat = f"'({names[0]}, {names[1]})"
+                    else:
+                        if kind != 'set':
+                            self.err(s, 'iteration over something that is not a set of atom numbers')
+                        benv[names[0]] = ('int', False, None)
+                        vpat = names[0]
                     body = self.block(list(s.body), benv, inner_tail, True, ind + 2)
-                    return (f'{pad}match py_for {it} (fun {self.pat(state)} {v} =>\n{body}) {self.tup(state)} with\n'
-                            f'{pad}| Err e => Err e\n{pad}| Ok {self.pat(state).lstrip(chr(39))} =>\n' + go(env1) + f'\n{pad}end')
-                if any(isinstance(x, ast.Name) and x.id == v for x in ast.walk(s.iter)):
-                    self.err(s, 'loop variable inside its iterable')
-                return self.expr(s.iter, env, k, pad)
+                    return (f'{pad}match py_for {it} (fun {self.pat(state)} {vpat} =>\n{body}) {self.tup(state)} with\n'
+                            f'{pad}| Err e => Err e\n{pad}| Ok {okpat} =>\n' + go(env1) + f'\n{pad}end')
+                return self.expr(it_expr, env, k, pad)
             c = self.test(s.test, env)
             body = self.block(list(s.body), dict(env), inner_tail, True, ind + 2)
             return (f'{pad}match py_while fuel (fun {self.pat(state)} => {c}) (fun {self.pat(state)} =>\n{body}) {self.tup(state)} with\n'
-                    f'{pad}| Err e => Err e\n{pad}| Ok {self.pat(state).lstrip(chr(39))} =>\n' + go(env) + f'\n{pad}end')
+                    f'{pad}| Err e => Err e\n{pad}| Ok {okpat} =>\n' + go(env) + f'\n{pad}end')
         self.err(s, 'statement')
 
 
-def find(tree, path):
+def find(tree, path, name):
     for node in tree.body:
         if isinstance(node, ast.ClassDef) and node.name == CLASS:
             for sub in node.body:
-                if isinstance(sub, ast.FunctionDef) and sub.name == FUNCTION:
+                if isinstance(sub, ast.FunctionDef) and sub.name == name:
                     return sub
-    raise TranslatorError(f'{path}: {CLASS}.{FUNCTION} not found')
+    raise TranslatorError(f'{path}: {CLASS}.{name} not found')
+
+
+def body_of(fn, path, args):
+    a = fn.args
+    if [x.arg for x in a.args] != args or a.vararg or a.kwarg or a.kwonlyargs or a.posonlyargs or a.defaults or fn.decorator_list:
+        raise TranslatorError(f'{path}:{fn.lineno}: signature of {fn.name} changed')
+    body = list(fn.body)
+    if body and isinstance(body[0], ast.Expr) and isinstance(body[0].value, ast.Constant) and isinstance(body[0].value.value, str):
+        body = body[1:]
+    return body
+
+
+def get_deleted(tree, path):
+    fn = find(tree, path, '_get_deleted')
+    body = body_of(fn, path, GD_ARGS)
+    tr = Tr(path, GD_PARAMS, GD_ARGS)
+
+    def no_return(env, ind):
+        raise TranslatorError(f'{path}:{fn.lineno}: a path through _get_deleted ends without return')
+    text = tr.block(body, {}, no_return, False, 1)
+    sig = ' '.join(f'({c} : {t})' for _, c, _, t in GD_PARAMS)
+    return (f'\n(* {CLASS}._get_deleted, lines {fn.lineno}-{fn.end_lineno} of {SOURCE} *)\n'
+            f'Definition g_get_deleted (fuel : nat) {sig} : pyres (list Z) :=\n{text}.\n')
+
+
+def patcher_keep(tree, path):
+    fn = find(tree, path, '_patcher')
+    body = body_of(fn, path, GD_ARGS)
+    start = [i for i, st in enumerate(body) if isinstance(st, ast.Assign) and ast.unparse(st) == 'patched_atoms = set(new)']
+    if len(start) != 1:
+        raise TranslatorError(f'{path}:{fn.lineno}: `patched_atoms = set(new)` not found exactly once at the top level of _patcher')
+    i = start[0]
+    region = body[i:i + 3]
+    if len(body) < i + 4 or not all(isinstance(x, ast.For) for x in region[1:]) \
+            or ast.unparse(region[1].iter) != 'satoms.items()' or ast.unparse(region[2].iter) != 'sbonds.items()' \
+            or not (isinstance(body[i + 3], ast.For) and ast.unparse(body[i + 3].iter) == 'new.atoms()'):
+        raise TranslatorError(f'{path}:{body[i].lineno}: the two loops after `patched_atoms = set(new)` are not where they were')
+    prologue(body, i, PK_PROLOGUE, path, fn)
+    tr = Tr(path, PK_PARAMS, GD_ARGS + ['new'])
+    env = {n: (kind, owned, None) for n, kind, owned, _ in PK_ENV}
+    text = tr.block(region, env, lambda env1, ind: '  ' * ind + f'Ok {Tr.tup(PK_RESULT)}', False, 1)
+    sig = ' '.join(f'({n} : {t})' for n, _, owned, t in PK_ENV if not owned) + ' (tetrahedrons : list Z) ' + \
+        ' '.join(f'({n} : {t})' for n, _, owned, t in PK_ENV if owned)
+    return (f'\n(* {CLASS}._patcher, lines {region[0].lineno}-{region[-1].end_lineno} of {SOURCE}: the atoms the template does not name and the\n'
+            f'   bonds that survive; satoms / sbonds = structure._atoms / _bonds, natoms / nbonds = new._atoms / _bonds *)\n'
+            f'Definition g_patcher_keep {sig}\n  : pyres (list (Z * atom) * list (Z * list (Z * bond)) * list Z * list (Z * Z)) :=\n{text}.\n')
+
+
+PA_PROLOGUE = dict(PK_PROLOGUE, max_atom='max(satoms)')
+PA_PARAMS = [('self._replacement', 'replacement_atoms', 'ratoms', 'list (Z * gratom)')]
+PA_ENV = [('satoms', 'atoms', False, 'list (Z * atom)'), ('natoms', 'atoms', True, 'list (Z * atom)'),
+          ('nbonds', 'bonds', True, 'list (Z * list (Z * bond))'), ('mapping', 'map', True, 'list (Z * Z)'),
+          ('max_atom', 'int', False, 'Z'), ('stereo_atoms', 'ilist', True, 'list Z')]
+PA_RESULT = ['natoms', 'nbonds', 'mapping', 'max_atom', 'stereo_atoms']
+PA_SKIP = ['a.xy=ra.xy', 'a.xy=sa.xy']       # coordinates are not modelled
+
+
+def prologue(body, i, expected, path, fn):
+    """every name the region reads is bound once, at the top level before it, to what the environment of the region assumes"""
+    bound = {}
+    for st in body[:i]:
+        for sub in ast.walk(st):
+            if isinstance(sub, ast.Name) and isinstance(sub.ctx, ast.Store) and sub.id in expected:
+                if not (isinstance(st, ast.Assign) and len(st.targets) == 1 and st.targets[0] is sub) or sub.id in bound:
+                    raise TranslatorError(f'{path}:{st.lineno}: {sub.id} is bound in an unexpected way before the translated region')
+                bound[sub.id] = ast.unparse(st.value)
+            elif (isinstance(sub, ast.Call) and isinstance(sub.func, ast.Attribute) and isinstance(sub.func.value, ast.Name)
+                  and sub.func.value.id in ('satoms', 'sbonds', 'to_delete') and sub.func.attr not in ('items', 'get', 'keys', 'values')):
+                raise TranslatorError(f'{path}:{st.lineno}: {sub.func.value.id} may be changed before the translated region')
+            elif isinstance(sub, (ast.Subscript, ast.Attribute)) and isinstance(sub.ctx, (ast.Store, ast.Del)):
+                x = sub
+                while isinstance(x, (ast.Subscript, ast.Attribute)):
+                    x = x.value
+                if isinstance(x, ast.Name) and x.id in ('satoms', 'sbonds', 'to_delete', 'structure'):
+                    raise TranslatorError(f'{path}:{st.lineno}: {x.id} is changed before the translated region')
+    if bound != expected:
+        raise TranslatorError(f'{path}:{fn.lineno}: prologue of _patcher changed: {bound}')
+
+
+def patcher_atoms(tree, path):
+    fn = find(tree, path, '_patcher')
+    body = body_of(fn, path, GD_ARGS)
+    start = [i for i, st in enumerate(body) if isinstance(st, ast.For) and ast.unparse(st.iter) == 'self._replacement.atoms()']
+    if len(start) != 1:
+        raise TranslatorError(f'{path}:{fn.lineno}: the loop over self._replacement.atoms() not found exactly once at the top level of _patcher')
+    i = start[0]
+    if len(body) < i + 2 or not (isinstance(body[i + 1], ast.For) and ast.unparse(body[i + 1].iter) == 'self._replacement._bonds.items()'):
+        raise TranslatorError(f'{path}:{body[i].lineno}: the loop over the replacement atoms is not followed by the loop over the replacement bonds')
+    prologue(body, i, PA_PROLOGUE, path, fn)
+    tr = Tr(path, PA_PARAMS, GD_ARGS + ['new'], PA_SKIP)
+    env = {n: (kind, owned, None) for n, kind, owned, _ in PA_ENV}
+    text = tr.block([body[i]], env, lambda env1, ind: '  ' * ind + f'Ok {Tr.tup(PA_RESULT)}', False, 1)
+    sig = '(replacement_atoms : list (Z * gratom)) ' + ' '.join(f'({n} : {t})' for n, _, _, t in PA_ENV)
+    return (f'\n(* {CLASS}._patcher, lines {body[i].lineno}-{body[i].end_lineno} of {SOURCE}: the atoms the replacement names (re-used or new), the\n'
+            f'   extension of the mapping by the new atoms; coordinates (a.xy = ...) are not modelled *)\n'
+            f'Definition g_patcher_atoms {sig}\n  : pyres (list (Z * atom) * list (Z * list (Z * bond)) * list (Z * Z) * Z * list Z) :=\n{text}.\n')
+
+
+PB_PARAMS = [('self._replacement._bonds', 'replacement_bonds', 'bonds', 'list (Z * list (Z * bond))')]
+PB_ENV = [('sbonds', 'bonds', False, 'list (Z * list (Z * bond))'), ('mapping', 'map', False, 'list (Z * Z)'),
+          ('nbonds', 'bonds', True, 'list (Z * list (Z * bond))'), ('stereo_bonds', 'plist', True, 'list (Z * Z)')]
+PB_RESULT = ['nbonds', 'stereo_bonds']
+
+
+def patcher_rbonds(tree, path):
+    fn = find(tree, path, '_patcher')
+    body = body_of(fn, path, GD_ARGS)
+    start = [i for i, st in enumerate(body) if isinstance(st, ast.For) and ast.unparse(st.iter) == 'self._replacement._bonds.items()']
+    if len(start) != 1:
+        raise TranslatorError(f'{path}:{fn.lineno}: the loop over self._replacement._bonds.items() not found exactly once at the top level of _patcher')
+    i = start[0]
+    if i < 1 or not (isinstance(body[i - 1], ast.For) and ast.unparse(body[i - 1].iter) == 'self._replacement.atoms()') \
+            or len(body) < i + 2 or ast.unparse(body[i + 1]) != 'patched_atoms = set(new)':
+        raise TranslatorError(f'{path}:{body[i].lineno}: the loop over the replacement bonds is not between the atom loop and `patched_atoms = set(new)`')
+    prologue(body, i - 1, PA_PROLOGUE, path, fn)
+    tr = Tr(path, PB_PARAMS, ['self', 'structure', 'new'])
+    env = {n: (kind, owned, None) for n, kind, owned, _ in PB_ENV}
+    text = tr.block([body[i]], env, lambda env1, ind: '  ' * ind + f'Ok {Tr.tup(PB_RESULT)}', False, 1)
+    sig = '(replacement_bonds : list (Z * list (Z * bond))) ' + ' '.join(f'({n} : {t})' for n, _, _, t in PB_ENV)
+    return (f'\n(* {CLASS}._patcher, lines {body[i].lineno}-{body[i].end_lineno} of {SOURCE}: the bonds the replacement names (order of the patch,\n'
+            f'   back-links share the bond, label of the patch or a queue entry when the structure has a labelled bond of the same order there) *)\n'
+            f'Definition g_patcher_rbonds {sig}\n  : pyres (list (Z * list (Z * bond)) * list (Z * Z)) :=\n{text}.\n')
 
 
 def main(repo='/repo', dest=None):
@@ -369,21 +824,7 @@ def main(repo='/repo', dest=None):
         tree = ast.parse(open(path).read())
     except (OSError, SyntaxError) as e:
         raise TranslatorError(f'{path}: {e}')
-    fn = find(tree, path)
-    a = fn.args
-    if [x.arg for x in a.args] != ARGS or a.vararg or a.kwarg or a.kwonlyargs or a.posonlyargs or a.defaults or fn.decorator_list:
-        raise TranslatorError(f'{path}:{fn.lineno}: signature of {FUNCTION} changed')
-    body = list(fn.body)
-    if body and isinstance(body[0], ast.Expr) and isinstance(body[0].value, ast.Constant) and isinstance(body[0].value.value, str):
-        body = body[1:]
-    tr = Tr(path)
-
-    def no_return(env, ind):
-        raise TranslatorError(f'{path}:{fn.lineno}: a path through {FUNCTION} ends without return')
-    text = tr.block(body, {}, no_return, False, 1)
-    sig = ' '.join(f'({c} : {t})' for _, c, _, t in PARAMS)
-    out = (PRELUDE + f'\n(* {CLASS}.{FUNCTION}, lines {fn.lineno}-{fn.end_lineno} of {SOURCE} *)\n'
-           f'Definition g_get_deleted (fuel : nat) {sig} : pyres (list Z) :=\n{text}.\n')
+    out = PRELUDE + get_deleted(tree, path) + patcher_atoms(tree, path) + patcher_rbonds(tree, path) + patcher_keep(tree, path)
     write_if_changed(dest or gen_path('ReactorBody.v'), out)
 
 
